@@ -28,8 +28,15 @@ import (
 	"time"
 )
 
+// VerifDir is the root of the verification tree (evidence, replays, cache).
+var VerifDir = func() string {
+	if d := os.Getenv("VERIF_DIR"); d != "" {
+		return d
+	}
+	return "/verif"
+}()
+
 const (
-	VerifDir     = "/verif"
 	maxHashes    = 400000 // per worker cap of remembered distinct-outcome hashes
 	maxSamples   = 6
 	maxVioPerKey = 3
